@@ -24,14 +24,14 @@ func sizes(prop, tier string) Sizes {
 	switch prop {
 	case "C08":
 		if th {
-			return Sizes{16, 250, 10, 30, Profile{Prop: prop, MaxStreams: 8, MaxData: 2 << 20}}
+			return Sizes{16, 500, 10, 40, Profile{Prop: prop, MaxStreams: 8, MaxData: 2 << 20}}
 		}
-		return Sizes{8, 25, 2, 10, Profile{Prop: prop, MaxStreams: 4, MaxData: 64 << 10}}
+		return Sizes{8, 40, 2, 15, Profile{Prop: prop, MaxStreams: 4, MaxData: 64 << 10}}
 	default:
 		if th {
-			return Sizes{16, 188, 8, 30, Profile{Prop: prop, MaxStreams: 8, MaxData: 1 << 20}}
+			return Sizes{16, 400, 8, 40, Profile{Prop: prop, MaxStreams: 8, MaxData: 1 << 20}}
 		}
-		return Sizes{8, 19, 2, 10, Profile{Prop: prop, MaxStreams: 4, MaxData: 96 << 10}}
+		return Sizes{8, 30, 2, 15, Profile{Prop: prop, MaxStreams: 4, MaxData: 96 << 10}}
 	}
 }
 
